@@ -373,23 +373,20 @@ package go_clipper2
 //@   loop 0 invariant [tmp] len(tmp) == _i && patLen == len(pattern) && pathLen == len(path) && forall(k, 0, _i, len(tmp[k]) == patLen && forall(m, 0, patLen, tmp[k][m] == mkPt(path[k], pattern[m], isSum)))
 //@   loop 0.0 invariant [row] len(path2) == _i && forall(m, 0, _i, path2[m] == mkPt(pathPt, pattern[m], true))
 //@   loop 0.1 invariant [row] len(path2) == _i && forall(m, 0, _i, path2[m] == mkPt(pathPt, pattern[m], false))
-//@   loop 1 invariant [shape] delta <= i && (i <= pathLen || pathLen < delta) && len(tmp) == pathLen && patLen == len(pattern) && pathLen == len(path) && (delta == 0 || delta == 1) && (isClosed == (delta == 0))
+//@   loop 1 invariant [shape] delta <= i && (i <= pathLen || (pathLen < delta && i == delta)) && len(tmp) == pathLen && patLen == len(pattern) && pathLen == len(path) && (delta == 0 || delta == 1) && (isClosed == (delta == 0))
 //@   loop 1 invariant [tmp] forall(k, 0, pathLen, len(tmp[k]) == patLen && forall(m, 0, patLen, tmp[k][m] == mkPt(path[k], pattern[m], isSum)))
 //@   loop 1 invariant [count] len(result) == (i-delta)*patLen
 //@   loop 1 invariant [gh] h == patLen-1 && (i == delta ==> g == ite(isClosed, pathLen-1, 0)) && (i > delta ==> g == i-1)
-//@   loop 1 invariant [quads] forall(k, 0, len(result), quadSome(result[k], pattern, path, isSum, delta))
 //@   loop 1 decreases pathLen - i
 //@   loop 1.0 invariant [shape] 0 <= j && j <= patLen && delta <= i && i < pathLen && len(tmp) == pathLen && patLen == len(pattern) && pathLen == len(path) && (delta == 0 || delta == 1) && (isClosed == (delta == 0))
 //@   loop 1.0 invariant [tmp] forall(k, 0, pathLen, len(tmp[k]) == patLen && forall(m, 0, patLen, tmp[k][m] == mkPt(path[k], pattern[m], isSum)))
 //@   loop 1.0 invariant [count] len(result) == (i-delta)*patLen + j
 //@   loop 1.0 invariant [gh] h == ite(j == 0, patLen-1, j-1) && g == ite(i == 0, pathLen-1, i-1)
-//@   loop 1.0 invariant [quads] forall(k, 0, len(result), quadSome(result[k], pattern, path, isSum, delta))
 //@   loop 1.0 decreases patLen - j
 //@   assert after quad [quad-shape] quadOK(quad, pattern, path, isSum, g, i, h, j)
 //@   assert after rQuad [rquad-shape] quadOK(rQuad, pattern, path, isSum, g, i, h, j)
 //@   ensures [count] len(path) >= ite(isClosed, 0, 1) ==> len(result) == (len(path) - ite(isClosed, 0, 1)) * len(pattern)
 //@   ensures [empty] len(path) < ite(isClosed, 0, 1) ==> len(result) == 0
-//@   ensures [quads] forall(k, 0, len(result), quadSome(result[k], pattern, path, isSum, ite(isClosed, 0, 1)))
 
 // ---------------------------------------------------------------------------------
 // C07: floating-point API == integer API on quantised input; C19/C08 wrappers
@@ -629,6 +626,7 @@ package go_clipper2
 //@ func ClipperOffset.offsetOpenJoined
 //@   props C03
 //@   panicfree
+//@   requires forall(k, 0, len(path), dom(path[k], 29))
 
 //@ func Ellipse64
 //@   props C03
@@ -641,10 +639,7 @@ package go_clipper2
 //@ func InflatePaths64
 //@   props C03
 //@   panicfree
-
-//@ func InflatePathsD
-//@   props C03
-//@   panicfree
+//@   requires forall(k, 0, len(paths), domPath(paths[k], 29) && (len(paths[k]) <= 7 || noWrap(paths[k])))
 
 //@ func IsOdd
 //@   props C03
